@@ -11,13 +11,15 @@ open IceModel.AgentCore IceProofs.Agent IceProofs.AgentC06
 /-! ## variants without the address clause -/
 
 theorem G.of_eq_na {a a' : Agent} (h1 : a'.checklist = a.checklist) (h4 : a'.selected = a.selected)
-    (h5 : ∀ pd ∈ a'.pending, pd ∈ a.pending) (h6 : a'.nextPairID = a.nextPairID) : G false none none none a a' :=
+    (h5 : ∀ pd ∈ a'.pending, pd ∈ a.pending) (h6 : a'.nextPairID = a.nextPairID)
+    (h7 : a'.nomIssued = a.nomIssued := by rfl) : G false none none none a a' :=
   ⟨by rw [h6]; exact Nat.le_refl _, Or.inl h4, fun p' hp' _ => Or.inl ⟨p', h1 ▸ hp', rfl, rfl⟩,
-   fun p hp => ⟨p, h1 ▸ hp, rfl⟩, (fun h => Bool.noConfusion h), fun pd hpd => Or.inl (h5 pd hpd)⟩
+   fun p hp => ⟨p, h1 ▸ hp, rfl⟩, (fun h => Bool.noConfusion h), fun pd hpd => Or.inl (h5 pd hpd),
+   by rw [h7]; exact List.prefix_refl _⟩
 
 theorem G.modPair_na (a : Agent) (id : Nat) (f : Pair → Pair) (hid : ∀ p, (f p).id = p.id)
     (hnk : ∀ p, nk (f p) = nk p) : G false none none none a (a.modPair id f) := by
-  refine ⟨Nat.le_refl _, Or.inl rfl, ?_, ?_, (fun h => Bool.noConfusion h), fun pd hpd => Or.inl hpd⟩
+  refine ⟨Nat.le_refl _, Or.inl rfl, ?_, ?_, (fun h => Bool.noConfusion h), fun pd hpd => Or.inl hpd, List.prefix_refl _⟩
   · intro q hq _
     obtain ⟨p, hp, h | h⟩ := C03.mem_updPair (l := a.checklist) hq
     · obtain ⟨_, rfl⟩ := h
@@ -50,7 +52,7 @@ theorem addLocalCandidate_g {wa : Bool} (a : Agent) (c : Cand) : G wa none none 
     · have h0 : G wa none none none a
           ({ a with nextUid := a.nextUid + 1, locals := a.locals ++ [{ c with uid := a.nextUid }] } : Agent) :=
         ⟨Nat.le_refl _, Or.inl rfl, fun p' hp' _ => Or.inl ⟨p', hp', rfl, rfl⟩, fun p hp => ⟨p, hp, rfl⟩,
-         fun _ => pairAddrs_appendLocals [{ c with uid := a.nextUid }] rfl rfl rfl, fun _ h => Or.inl h⟩
+         fun _ => pairAddrs_appendLocals [{ c with uid := a.nextUid }] rfl rfl rfl, fun _ h => Or.inl h, List.prefix_refl _⟩
       have h3 : ∀ (c' : Cand) (rs : List Cand) (b : Agent), G wa none none none a b →
           G wa none none none a (rs.foldl (fun a r => (a.addPair c' r).1) b) := by
         intro c' rs
@@ -193,7 +195,7 @@ theorem addRemoteCandidate_closed (a : Agent) (c : Cand) : (a.addRemoteCandidate
 theorem addRemoteCandidate_g {a : Agent} (hi : Inv a) (c : Cand) (hc : a.closed = false) :
     G true none none none a (a.addRemoteCandidate c).1 := by
   have h0 := addRemoteCandidate_g0 a c
-  refine ⟨h0.npid, h0.sel, h0.pairs, h0.fwd, fun _ => ?_, h0.pend⟩
+  refine ⟨h0.npid, h0.sel, h0.pairs, h0.fwd, fun _ => ?_, h0.pend, h0.log⟩
   exact addrs_stable hi (hi.addRemoteCandidate c hc).1 (stable_addRemoteCandidate hi c hc)
     ((addRemoteCandidate_closed a c).trans hc) h0.fwd
 
